@@ -295,6 +295,123 @@ def _a7_unit(u: Unit):
     return out
 
 
+MUTATORS = {"append", "extend", "insert", "pop", "remove", "clear", "update", "setdefault",
+            "sort", "reverse", "popitem", "fill", "resize"}
+
+
+def _self_writes(fn: ast.AST) -> Set[str]:
+    """self attributes (first level, 'self.X') that fn rebinds or mutates in place."""
+    out = set()
+
+    def base_attr(e):
+        while isinstance(e, ast.Subscript):
+            e = e.value
+        d = dotted(e)
+        if d and d.startswith("self.") and d.count(".") >= 1:
+            return ".".join(d.split(".")[:2])
+        return None
+    for x in walk_local(fn):
+        tgts = []
+        if isinstance(x, ast.Assign):
+            tgts = list(x.targets)
+        elif isinstance(x, (ast.AugAssign, ast.AnnAssign)):
+            tgts = [x.target]
+        elif isinstance(x, ast.Delete):
+            tgts = list(x.targets)
+        for t in tgts:
+            for el in (t.elts if isinstance(t, (ast.Tuple, ast.List)) else [t]):
+                b = base_attr(el)
+                if b:
+                    out.add(b)
+        if isinstance(x, ast.Call) and isinstance(x.func, ast.Attribute) and x.func.attr in MUTATORS:
+            b = base_attr(x.func.value)
+            if b:
+                out.add(b)
+    return out
+
+
+def _memo_state_reads(u: Unit, st: ast.Assign, attr: str) -> Set[str]:
+    """self attributes the value stored by `st` is computed from (def-use closure of the
+    stored value plus the branch tests on the way to those definitions)."""
+    du = DefUse(u, CFG(u.node, exc_edges=False))
+    nid = du.node_of(st.value)
+    exprs = [st.value]
+    seen = set()
+    work = [(nid, st.value)]
+    while work:
+        at, e = work.pop()
+        for x in ast.walk(e):
+            if isinstance(x, ast.Name) and isinstance(x.ctx, ast.Load):
+                for d in du.reaching(at, x.id):
+                    if d.id in seen or d.value is None:
+                        continue
+                    seen.add(d.id)
+                    exprs.append(d.value)
+                    if d.stmt is not None:
+                        for (t, br) in branch_context(u.node, d.stmt):
+                            exprs.append(t)
+                    work.append((d.node, d.value))
+    out = set()
+    for e in exprs:
+        for x in ast.walk(e):
+            d = dotted(x) if isinstance(x, ast.Attribute) else None
+            if d and d.startswith("self.") :
+                a = ".".join(d.split(".")[:2])
+                if a != attr:
+                    out.add(a)
+    return out
+
+
+def _a7b_core(u: Unit, methods: List[Unit]):
+    out = []
+    for (st, attr, key_expr, covered, missing) in _a7_unit(u):
+        reads = _memo_state_reads(u, st, attr)
+        if not reads:
+            continue
+        # methods (family-wide) that invalidate the memo, directly or by calling one that does
+        invalidates = {mu.qual for mu in methods if attr in _self_writes(mu.node)
+                       and mu.qual != u.qual}
+        by_name = {}
+        for mu in methods:
+            by_name.setdefault(mu.name, []).append(mu)
+        for mu in methods:
+            for c in walk_local(mu.node):
+                if isinstance(c, ast.Call) and isinstance(c.func, ast.Attribute) \
+                        and dotted(c.func.value) == "self" and any(
+                            t.qual in invalidates for t in by_name.get(c.func.attr, [])):
+                    invalidates = invalidates | {mu.qual}
+        for mu in methods:
+            if mu.qual == u.qual or mu.name in ("__init__", "__new__"):
+                continue
+            hit = sorted(_self_writes(mu.node) & reads)
+            if hit and mu.qual not in invalidates:
+                out.append((st, attr, mu, hit[0]))
+    return out
+
+
+def _a7b_unit(prog: Program, u: Unit):
+    """[(store stmt, memo attr, writer unit, written attr)] : another method of the class
+    family rewrites state the memoised value was computed from and leaves the memo alone."""
+    ci = prog.class_of_unit(u)
+    if ci is None:
+        return []
+    family = {c.qual: c for c in prog.mro(ci)}
+    for c in prog.subclasses(ci):
+        family[c.qual] = c
+    methods = [mu for c in family.values() for mu in c.methods.values()]
+    return _a7b_core(u, methods)
+
+
+def _a7b_positive(tree: ast.AST, m) -> List[Tuple[str, str]]:
+    cls = [x for x in ast.walk(tree) if isinstance(x, ast.ClassDef) and x.name == "Store"]
+    if not cls:
+        return []
+    units = [Unit(f"positive.memo_stale:Store.{f.name}", m, f, "Store", None, f.name)
+             for f in cls[0].body if isinstance(f, ast.FunctionDef)]
+    target = [x for x in units if x.name == "prepared"][0]
+    return [(mu.qual.split(":")[1], w) for (st, attr, mu, w) in _a7b_core(target, units)]
+
+
 def a7(prog: Program, chk: Check) -> None:
     chk.rule("A7", "a hand-written memo (look-up in a dict attribute, recompute-and-store on a "
              "miss, value returned) must key or validate the entry by every parameter the stored "
@@ -331,6 +448,25 @@ def a7(prog: Program, chk: Check) -> None:
                     f"checked on look-up: a later call with a different {missing[0]} gets the "
                     f"stale entry", st)
     chk.extra["a7_memos_found"] = n
+    chk.rule("A7b", "state a hand-written memo was computed from is not rewritten by another "
+             "method of the class family unless that method also drops the memo (expected count "
+             "on the pinned tree: 0 memos; the positive example must be reported)", floor=1)
+    hits2 = _a7b_positive(tree, m)
+    if hits2 != [("Store.put", "self._raw")]:
+        raise AnalysisError(f"A7b: the positive example is no longer reported ({hits2}) - the "
+                            f"rule has gone blind")
+    chk.add("A7b", m, "positive example: memo of prepared items, put() rewrites the raw items "
+            "without dropping it", True, "reported as expected (rule is alive)",
+            function="Store.prepared")
+    for u in prog.units.values():
+        if isinstance(u.node, ast.Lambda) or u.cls is None:
+            continue
+        for (st, attr, mu, written) in _a7b_unit(prog, u):
+            chk.saw(u)
+            chk.add("A7b", u, f"memo {attr} vs {mu.qual.split(':')[1]} writing {written}", False,
+                    f"{mu.qual.split(':')[1]} rewrites {written}, from which the entries of {attr} "
+                    f"were computed, and does not drop them: the next look-up returns a value of "
+                    f"the old state", st)
 
 
 # ------------------------------------------------------------------ A2 / A3
